@@ -3,7 +3,6 @@ package rules
 import (
 	"sort"
 	"strings"
-
 )
 
 // lockHeldAcrossChannelOp (C09.28 / C15.25 / C06.31): a goroutine that blocks
